@@ -52,7 +52,14 @@ def variant(name, patterns, services=(ID1, ID2, ID3, ID4, ID5, ID6, ID7, ID8, ID
             "base": base}
 
 
+# one pattern OBJECT referenced by two variants whose identification services have the same short
+# name but are different services (another request): each variant resolves the name in its own layer
+ID1B = ident("ident1", 0xF1A0, [V("v")])
+SHARED_PATTERN = [mp("5", "ident1", "v")]
 CANDIDATES = {
+    "shared-pattern-object": [variant("v1", [SHARED_PATTERN], services=(ID1B, ID2)),
+                              variant("v2", [SHARED_PATTERN], services=(ID1, ID2)),
+                              variant("v3", [[mp("6", "ident1", "v")]])],
     "single": [variant("v1", [[mp("5", "ident1", "v")]])],
     "first-wins": [variant("v1", [[mp("5", "ident1", "v")]]), variant("v2", [[mp("5", "ident1", "v")]]),
                    variant("v3", [[mp("6", "ident1", "v")]])],
@@ -107,6 +114,19 @@ def build_candidates(cfg):
     from odxtools.matchingbasevariantparameter import MatchingBaseVariantParameter
     from odxtools.matchingparameter import MatchingParameter
     layers = []
+    shared = {}  # pattern / parameter objects are shared where the catalogue shares its lists
+
+    def _mp(m):
+        if id(m) not in shared:
+            shared[id(m)] = MatchingParameter(
+                expected_value=m["expected"], diag_comm_snref=m["service"],
+                out_param_if_snref=m["snref"], out_param_if_snpathref=m["path"])
+        return shared[id(m)]
+
+    def _pat(pat):
+        if id(pat) not in shared:
+            shared[id(pat)] = EcuVariantPattern(matching_parameters=[_mp(m) for m in pat])
+        return shared[id(pat)]
     for v in CANDIDATES[cfg["cand"]]:
         layer = build.build_layer({"services": v["services"], "gnr": v["gnr"]},
                                   base_variant=v.get("base", False))
@@ -120,11 +140,7 @@ def build_candidates(cfg):
                         out_param_if_snref=m["snref"], out_param_if_snpathref=m["path"],
                         use_physical_addressing_raw=None) for m in pats[0]])
         else:
-            layer.diag_layer_raw.ecu_variant_patterns = [
-                EcuVariantPattern(matching_parameters=[
-                    MatchingParameter(expected_value=m["expected"], diag_comm_snref=m["service"],
-                                      out_param_if_snref=m["snref"], out_param_if_snpathref=m["path"])
-                    for m in pat]) for pat in v["patterns"]]
+            layer.diag_layer_raw.ecu_variant_patterns = [_pat(pat) for pat in v["patterns"]]
         layers.append(layer)
     return {"layers": layers, "spec": CANDIDATES[cfg["cand"]]}
 
